@@ -72,12 +72,14 @@ func checkC19(p *Prog, r *Report) {
 			}
 		}
 		pUTC := false
-		forEachCall(parser, func(site ssa.CallInstruction) {
-			if callee := site.Common().StaticCallee(); callee != nil && fnPkgPath(callee) == "time" && callee.Name() == "ParseInLocation" {
-				if Path(site.Common().Args[2]) == "global:UTC" {
-					pUTC = true
+		p.InScope(parser, func() {
+			forEachCall(parser, func(site ssa.CallInstruction) {
+				if callee := site.Common().StaticCallee(); callee != nil && fnPkgPath(callee) == "time" && callee.Name() == "ParseInLocation" {
+					if Path(site.Common().Args[2]) == "global:UTC" {
+						pUTC = true
+					}
 				}
-			}
+			})
 		})
 		r.Check("R1", base+"|utc", wUTC && pUTC, p.InstrPos(format), fmt.Sprintf("writer converts to UTC: %v; parser parses in UTC: %v", wUTC, pUTC))
 		// a layout ending in Z must be written from a UTC time (else the zone letter lies)
